@@ -49,6 +49,8 @@ def gen_recipe(rng, kind):
     rows.append([g] + [spell(rng, b) for b in code])
   rec = {'kind': kind, 'rows': rows, 'geo_as_index': rng.random() < 0.3, 'hasGeo': True, 'dupCols': False,
          'missing': [], 'int_ids': False}
+  # columns the class has no business with (the documentation allows them): a numeric one that is never zero, a text one
+  rec['extra_cols'] = rng.choice([[], [], ['num'], ['num', 'txt'], ['txt']])
   if kind == 'zero_row':
     rows[rng.randrange(n)][1:] = [0, 0, 0]
   elif kind == 'bad_value':
@@ -79,6 +81,8 @@ def build_df(rec):
     df = pd.DataFrame({k: pd.Series(v, dtype=object) if k != 'geo' else v for k, v in data.items()})
   else:
     df = pd.DataFrame(data)
+  for c in rec.get('extra_cols') or []:
+    df['population' if c == 'num' else 'name'] = [(i + 1) * 1000 if c == 'num' else f'n{i}' for i in range(len(rows))]
   for m in rec['missing']:
     del df[m]
   if not rec['hasGeo']:
